@@ -113,10 +113,10 @@ def param_widths(world, fn):
 
 class Run:
     """All paths of one function evaluation plus convenience accessors."""
-    def __init__(self, world, fn, args=None, subst=None, resolver=None, path=None):
+    def __init__(self, world, fn, args=None, subst=None, resolver=None, path=None, inline=True):
         self.world = world
         self.fn = fn
-        self.interp = Interp(world, inline_filter=no_lc_inline, resolver=resolver)
+        self.interp = Interp(world, inline=inline, inline_filter=no_lc_inline, resolver=resolver)
         self.results = self.interp.run(fn, args=args, subst=subst, path=path)
         self.norm = Norm(param_widths(world, fn))
         self.norm.input_widths.update(self.interp.in_widths)
